@@ -18,4 +18,5 @@ def run(ctx):
             if fs != "default":
                 r.rule += "@" + fs
         out += res
+    out.append(D.dedup_key_rule(ctx.syn, "C13"))
     return out
